@@ -556,7 +556,21 @@ def run_d(pair, choices):
 def check_d(pair, bound, first_alts=None):
     from mc import sched
     from clikit.args import StringArgs
-    want = [list(StringArgs(x).tokens) for x in pair]
+    signal.signal(signal.SIGALRM, _on_alarm)
+    try:
+        _arm(SINGLE_BUDGET)
+        want = [list(StringArgs(x).tokens) for x in pair]
+        _disarm()
+    except _Timeout:
+        _disarm()
+        v = report.viol("non-termination", "tokenising did not finish within %.0f s" % SINGLE_BUDGET, {"part": "a", "string": pair[0]},
+                        "terminates", "still running")
+        st = {"execs": 0, "by_preemptions": {}, "max_points": 0, "capped": True}
+        return (st, [v], []) if first_alts == "root" else (st, [v])
+    except Exception as e:  # noqa - tokenising alone already fails: part (a) reports it
+        _disarm()
+        st = {"execs": 0, "by_preemptions": {}, "max_points": 0, "capped": True}
+        return (st, [], []) if first_alts == "root" else (st, [])
 
     def run_one(choices):
         s, got, exc, alive = run_d(pair, choices)
@@ -667,7 +681,8 @@ def main():
     bd = 2 if thorough else 1
     execs_d = 0
     rows = []
-    for pair, st, vsd in part_d(bd):
+    hung_already = any(v["sig"] == "non-termination" for v in rep.violations.values())
+    for pair, st, vsd in ([] if hung_already else part_d(bd)):
         rep.merge(vsd)
         execs_d += st["execs"]
         rows.append({"pair": pair, "schedules": st["execs"], "by_preemptions": st["by_preemptions"], "max_points": st["max_points"]})
